@@ -106,12 +106,17 @@ def rules_c04(prop, repo):
                 continue
             if z.kind != "zero" and not any(fid in dom_vids_of_class(dom, rs, ("diff", "x")) for fid in z.factors):
                 zfac_ok = False
+        # an early exit with the canonical identity is A + (−A): the x-difference must have tested zero on that path (the only other
+        # admitted shape is y-difference and y-sum both zero, i.e. y = 0, which no point of an odd-order curve has)
+        ident_bad = [pc for v, pc in lst if weight.is_point_form(v) == "identity" and zq(pc, ("diff", "x")) is not True
+                     and not (zq(pc, ("diff", "y")) is True and zq(pc, ("sum", "y")) is True)]
         armname = ",".join("z%d==1:%s" % (i + 1, x) for i, x in enumerate(arm))
         key = "%s:add:arm(%s)" % (prop, armname)
-        R.check(bool(dbl_ok) and not fall and zfac_ok and gen, key,
-                "adder arm (%s): double() under both differences zero=%s, chord formula reachable with both differences possibly zero=%s, z has the x-difference as a factor=%s" %
-                (armname, bool(dbl_ok), bool(fall), zfac_ok), b.file_line(), b.rec["path"],
-                sample={"arm": armname, "double_when_equal": bool(dbl_ok), "chord_paths": len(gen), "z_contains_x_difference": zfac_ok})
+        R.check(bool(dbl_ok) and not fall and zfac_ok and gen and not ident_bad, key,
+                "adder arm (%s): double() under both differences zero=%s, chord formula reachable with both differences possibly zero=%s, z has the x-difference as a factor=%s, "
+                "identity returned without the x-difference having tested zero=%s" %
+                (armname, bool(dbl_ok), bool(fall), zfac_ok, bool(ident_bad)), b.file_line(), b.rec["path"],
+                sample={"arm": armname, "double_when_equal": bool(dbl_ok), "chord_paths": len(gen), "z_contains_x_difference": zfac_ok, "identity_exits_unjustified": len(ident_bad)})
     for arm in sorted(set(arms) - set(formula_arms)):
         R.instance()
         lst = arms[arm]
